@@ -120,9 +120,9 @@ def run_sim_for(chk, prop, tier, seed):
     """Runtime-side part of the allocator-centred properties: oracle A of C05 (state digest after every rollback) and C13
     (fossil cut at a checkpoint at/below the committed frontier, rollbacks right after a collection)."""
     if prop == "C05":
-        n = 60 if tier == "quick" else 800
+        n = 60 if tier == "quick" else 500
         cases = make_cases(prop, tier, seed, n, variants=(0,), fp_levels=(1, 10, 2, 3, 10), sizes=(0, 0, 1), ckpts=[0, 1, 2, 3, 5, 7, 64, 16])
     else:
-        n = 60 if tier == "quick" else 800
+        n = 60 if tier == "quick" else 500
         cases = make_cases(prop, tier, seed, n, variants=(0, 0, 1), fp_levels=(2, 10, 3, 1, 10), sizes=(0, 0, 1), gvts=[0, 0, 20, 0, 100], ckpts=[1, 2, 3, 4, 5, 6, 7])
     return run_sim_cases(chk, cases, timeout=300)
